@@ -1,6 +1,9 @@
 package main
 
 func (e *executor) other(t []string) (string, bool) {
+	if r, ok := e.allocOp(t); ok {
+		return r, true
+	}
 	if r, ok := e.agentOp(t); ok {
 		return r, true
 	}
